@@ -16,7 +16,7 @@ Definition cp_w (p : cpend) : Prop :=
   | _ => True
   end.
 Definition up_w (u : upend) : Prop := forall v, u_v u = Some v -> W (u_k u) v.
-Definition wd_w (d : option wdpend) : Prop := match d with Some (WPAdmitted _ k v _ _ _) => W k v | _ => True end.
+Definition wd_w (d : option wdpend) : Prop := match d with Some (WPCharged _ k v _ _ _) => W k v | _ => True end.
 
 Record MPInv (ms : mstate) : Prop := {
   mp_base : PInv W (mbase ms);
